@@ -176,7 +176,7 @@ def check_properties_file(prop, timeout=900):
     path = os.path.join(COQ, "Properties", prop + ".v")
     src = strip_comments(open(path).read())
     theorems = re.findall(r"^\s*(?:Theorem|Lemma)\s+([A-Za-z0-9_']+)", src, re.M)
-    printed = re.findall(r"Print\s+Assumptions\s+([A-Za-z0-9_']+)\s*\.", src)
+    printed = [x.split(".")[-1] for x in re.findall(r"Print\s+Assumptions\s+([A-Za-z0-9_'.]+?)\s*\.(?=\s|$)", src)]
     with Lock("coq.lock"):
         p = run(["coqc", "-Q", ".", "KV", os.path.join("Properties", prop + ".v")], cwd=COQ, timeout=timeout)
     log = p.stdout + p.stderr
@@ -380,6 +380,28 @@ def produce_lines(group, tier, seed, release=False, timeout=3000):
             return None, "harness timed out"
     if p.returncode != 0:
         return None, "harness exited with %s: %s" % (p.returncode, p.stderr.decode(errors="replace")[-800:])
+    return out_path, ""
+
+
+def produce_lines_miri(group, seed, timeout=3000):
+    """run the harness group's reduced case list under Miri (thorough tier, supporting evidence
+    for the runtime half of C01): returns (lines path | None, error)."""
+    os.makedirs(BUILD, exist_ok=True)
+    out_path = os.path.join(BUILD, "lines_%s_miri_%d.tsv" % (group, os.getpid()))
+    env = env_base()
+    env["CARGO_TARGET_DIR"] = os.path.join(BUILD, "target_miri")
+    with Lock("cargo.lock"):
+        link_repo()
+        with open(out_path, "w") as f:
+            try:
+                p = subprocess.run(["cargo", "+nightly", "miri", "run", "--offline", "-q", "--", group, "miri", str(seed)],
+                                   cwd=HARNESS, stdout=f, stderr=subprocess.PIPE, env=env, timeout=timeout)
+            except subprocess.TimeoutExpired:
+                return None, "miri run timed out"
+    if p.returncode != 0:
+        err = p.stderr.decode(errors="replace")
+        m = re.search(r"error: Undefined Behavior:[^\n]*(?:\n[^\n]*){0,12}", err)
+        return None, "Miri: " + (m.group(0) if m else err[-1500:])
     return out_path, ""
 
 
